@@ -68,10 +68,27 @@ macro_rules! ta3_log {
     })
 }
 
+#[cfg(not(feature = "verif"))]
 macro_rules! exit_log {
     ($pos:expr, $($arg:tt)+) => ({
         log!(Level::Error, "at {:>10} - {}", $pos, format_args!($($arg)+));
         process::exit(1)
+    })
+}
+
+// Verification hook: a rejection unwinds with a typed payload instead of exiting the
+// process, so that the loader can be driven in-process under catch_unwind.
+#[cfg(feature = "verif")]
+pub struct VerifExit {
+    pub pos: usize,
+    pub msg: String,
+}
+#[cfg(feature = "verif")]
+macro_rules! exit_log {
+    ($pos:expr, $($arg:tt)+) => ({
+        log!(Level::Error, "at {:>10} - {}", $pos, format_args!($($arg)+));
+        let _ = process::id();
+        std::panic::panic_any(VerifExit { pos: $pos, msg: format!($($arg)+) })
     })
 }
 
